@@ -592,6 +592,10 @@ def execute(plan):
                 # (map, clock).  Not a clause of the property; judge against what is on disk.
                 bump(probes, "writer_not_reproducible")
                 entry["full"] = now
+            elif out == "ok" and now.startswith(full):
+                # complete image followed by stale bytes (a writer that did not truncate):
+                # readers still have to return the map
+                bump(probes, "complete_file_with_trailing_bytes")
             elif not full.startswith(now):
                 # a faulted file that is not a prefix of the dry-run image cannot be
                 # judged by the cut-file contract (which samples were lost is unknown)
